@@ -1,5 +1,5 @@
 (* C16 — proofs about Model/Converter.v *)
-From PG Require Import Lib.Strs Model.Converter.
+From PG Require Import Lib.Strs Model.Converter Proofs.Reach.
 From Coq Require Import Lia.
 
 (* ---------- generic helpers ---------- *)
@@ -152,8 +152,13 @@ Section RoundTrip.
   (* assumed of the codecs: decoding an encoded byte string gives it back *)
   Hypothesis H_b64 : forall b, b64dec (b64enc b) = Some b.
   Hypothesis H_ct : ct_ok ct.
-  Hypothesis H_sreg : all_hooked ct sreg.
-  Hypothesis H_ureg : all_hooked ct ureg.
+  (* the classes whose hooks are registered: any set closed under "a field of c mentions d" *)
+  Variable R : N -> Prop.
+  Hypothesis H_R : forall c k f d, R c -> lookup_cls ct c = Some k -> In f (c_fields k) ->
+                                   In d (ty_classes (f_ty f)) -> R d.
+  Hypothesis H_sreg : forall c k, R c -> lookup_cls ct c = Some k -> mem_N c sreg = true.
+  Hypothesis H_ureg : forall c k, R c -> lookup_cls ct c = Some k -> mem_N c ureg = true.
+  Definition inR (T : ty) : Prop := forall d, In d (ty_classes T) -> R d.
 
   Notation S := (structure b64dec dt_parse date_parse uuid_parse time_parse int_of_str float_of_str str_of_json ct sreg).
   Notation Sstr := (structure_str b64dec dt_parse date_parse uuid_parse time_parse int_of_str float_of_str ct sreg).
@@ -239,11 +244,11 @@ Section RoundTrip.
   Qed.
 
   Lemma lift_opt : forall v,
-    (forall T, is_opt T = false -> ty_ok T = true -> IOK T v -> Q v T) ->
-    forall T, ty_ok T = true -> IOK T v -> Q v T.
+    (forall T, is_opt T = false -> ty_ok T = true -> inR T -> IOK T v -> Q v T) ->
+    forall T, ty_ok T = true -> inR T -> IOK T v -> Q v T.
   Proof.
-    intros v Hno T Hok Hi.
-    destruct T; try (apply Hno; [reflexivity | exact Hok | exact Hi]).
+    intros v Hno T Hok HR Hi.
+    destruct T; try (apply Hno; [reflexivity | exact Hok | exact HR | exact Hi]).
     cbn [ty_ok] in Hok. apply andb_true_iff in Hok as [Hok1 Hok2].
     inversion Hi; subst.
     - exists JNull. split; [reflexivity|]. split; [reflexivity|]. split.
@@ -251,7 +256,7 @@ Section RoundTrip.
       + intros c Hc. discriminate.
     - apply Q_opt; [assumption | destruct T; try reflexivity; try discriminate Hok2;
                                   destruct T; try reflexivity; discriminate Hok2 |].
-      apply Hno; [destruct T; try reflexivity; discriminate Hok2 | exact Hok1 | assumption].
+      apply Hno; [destruct T; try reflexivity; discriminate Hok2 | exact Hok1 | exact HR | assumption].
   Qed.
 
   Lemma map_result_cons : forall {A B} (f : A -> result B) x l,
@@ -284,21 +289,21 @@ Section RoundTrip.
       rewrite !map_result_cons. cbn [fst snd]. rewrite Hu, Hs, E1, E2. split; reflexivity.
   Qed.
 
-  Lemma Forall2_fields : forall (R : field -> str * value -> Prop) fields fs,
-    Forall2 R fields fs -> map fst fs = map f_name fields ->
-    forall f, In f fields -> exists kv, In kv fs /\ fst kv = f_name f /\ R f kv.
+  Lemma Forall2_fields : forall (Rel : field -> str * value -> Prop) fields fs,
+    Forall2 Rel fields fs -> map fst fs = map f_name fields ->
+    forall f, In f fields -> exists kv, In kv fs /\ fst kv = f_name f /\ Rel f kv.
   Proof.
-    intros R fields fs H. induction H as [|f kv fields fs HR _ IH]; intros Hm g Hg; [destruct Hg|].
+    intros Rel fields fs H. induction H as [|f kv fields fs HR _ IH]; intros Hm g Hg; [destruct Hg|].
     cbn [map] in Hm. inversion Hm as [[Hh Ht]]. destruct Hg as [-> | Hg].
     - exists kv. split; [left; reflexivity | split; assumption].
     - destruct (IH Ht g Hg) as [kv' [Hin [Hn Hr]]]. exists kv'. split; [right; exact Hin | split; assumption].
   Qed.
 
-  Lemma data_rt : forall c k fs,
+  Lemma data_rt : forall c k fs, R c ->
     lookup_cls ct c = Some k -> map fst fs = map f_name (c_fields k) ->
     Forall2 (fun f kv => Q (snd kv) (f_ty f)) (c_fields k) fs -> Q (VData c fs) (TData c).
   Proof.
-    intros c k fs Hk Hnames HQ.
+    intros c k fs HRc Hk Hnames HQ.
     destruct (H_ct c k Hk) as [_ [[Hnd_n [Hnd_w Hdump]] [Htyok _]]].
     assert (Hnd_fs : NoDup (map fst fs)) by (rewrite Hnames; exact Hnd_n).
     assert (Hpt : forall f, In f (c_fields k) -> exists v, alookup (f_name f) fs = Some v /\ Q v (f_ty f)).
@@ -314,14 +319,14 @@ Section RoundTrip.
     { unfold kvs'. rewrite map_map. cbn [fst]. exact Hnd_w. }
     exists (JObj kvs'). split; [|split; [|split]].
     - rewrite U_unfold. cbn [ukl ukd unstructure_node unstructure_nonopt]. rewrite N.eqb_refl.
-      unfold unstructure_data. rewrite Hk, (H_ureg c k Hk).
+      unfold unstructure_data. rewrite Hk, (H_ureg c k HRc Hk).
       rewrite (map_result_pointwise _ (fun f => (wire k f, jf f))).
       + cbn [bind]. fold kvs'. rewrite dict_of_NoDup by exact Hnd'. reflexivity.
       + intros f Hf. rewrite alookup_map_snd. destruct (Hpt f Hf) as [v [Hl _]].
         destruct (HU f Hf) as [Hu _]. unfold vf in Hu. rewrite Hl in *. cbn [option_map].
         rewrite Hu. cbn [bind]. rewrite (Hdump f Hf). reflexivity.
     - rewrite S_unfold. cbn [skl skd structure_node structure_nonopt]. unfold structure_data.
-      rewrite Hk, (H_sreg c k Hk).
+      rewrite Hk, (H_sreg c k HRc Hk).
       assert (Heb : existsb (fun f => eager_bad (f_ty f)) (c_fields k) = false).
       { apply not_true_is_false. intro He. apply existsb_exists in He as [f [Hf He]].
         rewrite (ty_ok_not_eager _ (Htyok f Hf)) in He. discriminate. }
@@ -353,9 +358,9 @@ Section RoundTrip.
 
   (* encode then decode: every conforming instance is encoded, and decoding the result gives the
      instance back *)
-  Theorem encode_decode_core : forall v T, ty_ok T = true -> IOK T v -> Q v T.
+  Theorem encode_decode_core : forall v T, ty_ok T = true -> inR T -> IOK T v -> Q v T.
   Proof.
-    induction v using value_ind'; apply lift_opt; intros T Hno Hok Hi;
+    induction v using value_ind'; apply lift_opt; intros T Hno Hok HR Hi;
       inversion Hi; subst; try discriminate Hno; try apply Q_any;
       try (match goal with
            | H : inject ?j = VWrap _ |- _ => destruct j; discriminate H
@@ -376,7 +381,7 @@ Section RoundTrip.
     - (* list *)
       cbn [ty_ok] in Hok.
       assert (HQ : Forall (fun x => Q x X) l).
-      { rewrite Forall_forall in *. intros x Hx. apply H; auto. }
+      { rewrite Forall_forall in *. intros x Hx. apply H; [exact Hx | exact Hok | exact HR | auto]. }
       destruct (list_rt X l HQ) as [l' [E1 E2]].
       exists (JArr l'). split; [|split; [|split]].
       + rewrite U_unfold. cbn [ukl ukd unstructure_node unstructure_nonopt].
@@ -388,7 +393,7 @@ Section RoundTrip.
     - (* dict *)
       cbn [ty_ok] in Hok.
       assert (HQ : Forall (fun kv => Q (snd kv) X) kvs).
-      { rewrite Forall_forall in *. intros x Hx. apply H; auto. }
+      { rewrite Forall_forall in *. intros x Hx. apply H; [exact Hx | exact Hok | exact HR | auto]. }
       destruct (dict_rt X kvs HQ) as [kvs' [E1 E2]].
       exists (JObj kvs'). split; [|split; [|split]].
       + rewrite U_unfold. cbn [ukl ukd unstructure_node unstructure_nonopt].
@@ -399,18 +404,316 @@ Section RoundTrip.
       + intros ? ?. discriminate.
     - (* dataclass *)
       match goal with Hk : lookup_cls ct c = Some ?k |- _ =>
-        apply (data_rt c k fs Hk); [assumption|];
-        destruct (H_ct c k Hk) as [_ [_ [Htyok _]]] end.
+        apply (data_rt c k fs (HR c (or_introl eq_refl)) Hk); [assumption|];
+        destruct (H_ct c k Hk) as [_ [_ [Htyok _]]];
+        assert (HRf : forall g, In g (c_fields k) -> inR (f_ty g))
+          by (intros g Hg d Hd; exact (H_R c k g d (HR c (or_introl eq_refl)) Hk Hg Hd)) end.
       match goal with HF : Forall2 _ (c_fields ?k) fs |- _ =>
-        clear - H HF Htyok; induction HF as [|f kv fields fs' Hfk _ IH]; constructor end.
-      + inversion H; subst. apply H2; [apply Htyok; left; reflexivity | exact Hfk].
-      + inversion H; subst. apply IH; [assumption|]. intros g Hg. apply Htyok. right. exact Hg.
+        clear - H HF Htyok HRf; induction HF as [|f kv fields fs' Hfk _ IH]; constructor end.
+      + inversion H; subst. apply H2; [apply Htyok; left; reflexivity | apply HRf; left; reflexivity | exact Hfk].
+      + inversion H; subst. apply IH; try assumption; intros g Hg; first [apply Htyok | apply HRf]; right; exact Hg.
     - leaf (JStr s). cbn [structure structure_str].
       match goal with H : uuid_parse s = Some s |- _ => rewrite H end. reflexivity.
     - leaf (JStr s). cbn [structure structure_str].
       match goal with H : time_parse s = Some s |- _ => rewrite H end. reflexivity.
   Qed.
+  (* ======================================================================================
+     decode -> encode
+     ====================================================================================== *)
+  Hypothesis H_def : defaults_ok ct.
+  Notation CONF := (conforms b64enc dt_parse date_parse uuid_parse time_parse ct).
+  Notation REL := (rt_rel ct).
+
+  Lemma S_opt : forall j X v, j <> JNull -> opt_arg_ok X = true ->
+    (forall c, X = TData c -> exists kvs, j = JObj kvs) -> S j X = Ok v -> S j (TOpt X) = Ok v.
+  Proof.
+    intros j X v Hnn HX Hobj Hs. rewrite S_unfold in *.
+    destruct X as [| | | | | | | | | |X0|X0|X0|c|vals|c|X0]; try discriminate HX.
+    all: try (destruct j; try (exfalso; apply Hnn; reflexivity);
+              cbn [structure_node structure_str strip_opt] in *; exact Hs).
+    - destruct X0; try discriminate HX;
+        destruct j; try (exfalso; apply Hnn; reflexivity);
+        cbn [structure_node structure_str strip_opt] in *; exact Hs.
+    - destruct (Hobj c eq_refl) as [kvs ->].
+      cbn [structure_node structure_nonopt strip_opt] in *. exact Hs.
+  Qed.
+
+  Lemma U_opt : forall v X j', v <> VNone -> opt_arg_ok X = true -> U v X = Ok j' -> U v (TOpt X) = Ok j'.
+  Proof.
+    intros v X j' Hv HX Hu. rewrite U_unfold in *.
+    destruct X; try discriminate HX; destruct v; try (exfalso; apply Hv; reflexivity);
+      cbn [unstructure_node strip_opt] in *; exact Hu.
+  Qed.
+
+  (* the claim for one document and one annotation *)
+  Definition D (j : json) (T : ty) : Prop :=
+    exists v j', S j T = Ok v /\ U v T = Ok j' /\ REL T j j' /\ (j <> JNull -> v <> VNone).
+
+  Lemma D_any : forall j, D j TAny.
+  Proof.
+    intro j. exists (inject j), j. split; [apply S_any|]. split; [apply U_inject|]. split.
+    - apply R_leaf. reflexivity.
+    - intros Hj Hv. destruct j; try discriminate Hv. apply Hj. reflexivity.
+  Qed.
+
+  Lemma conforms_data_obj : forall c j, CONF (TData c) j -> exists kvs, j = JObj kvs.
+  Proof. intros c j H. inversion H; subst. eexists. reflexivity. Qed.
+
+  Lemma D_lift : forall j,
+    (forall T, is_opt T = false -> ty_ok T = true -> inR T -> CONF T j -> D j T) ->
+    forall T, ty_ok T = true -> inR T -> CONF T j -> D j T.
+  Proof.
+    intros j Hno T Hok HR Hc.
+    destruct T; try (apply Hno; [reflexivity | exact Hok | exact HR | exact Hc]).
+    cbn [ty_ok] in Hok. apply andb_true_iff in Hok as [Hok1 Hok2].
+    assert (HX : opt_arg_ok T = true).
+    { destruct T; try reflexivity; try discriminate Hok2. destruct T; try reflexivity; discriminate Hok2. }
+    inversion Hc; subst.
+    - exists VNone, JNull. split; [reflexivity|]. split; [reflexivity|]. split; [apply R_null|].
+      intro H. exfalso. apply H. reflexivity.
+    - destruct (Hno T) as [v [j' [Hs [Hu [Hr Hn]]]]];
+        [destruct T; try reflexivity; discriminate Hok2 | exact Hok1 | exact HR | assumption |].
+      exists v, j'. split; [|split; [|split]].
+      + apply S_opt; try assumption. intros c ->. eapply conforms_data_obj. eassumption.
+      + apply U_opt; auto.
+      + apply R_some. exact Hr.
+      + exact Hn.
+  Qed.
+
+  Lemma list_de : forall X l, Forall (fun x => D x X) l ->
+    exists vs l', map_result (fun j => S j X) l = Ok vs /\ map_result (fun v => U v X) vs = Ok l' /\
+                  Forall2 (REL X) l l'.
+  Proof.
+    intros X l H. induction H as [|x l [v [j' [Hs [Hu [Hr _]]]]] _ [vs [l' [E1 [E2 F]]]]].
+    - exists [], []. repeat split; constructor.
+    - exists (v :: vs), (j' :: l'). rewrite !map_result_cons, Hs, Hu, E1, E2.
+      repeat split. constructor; assumption.
+  Qed.
+
+  Lemma dict_de : forall X kvs, Forall (fun kv => D (snd kv) X) kvs ->
+    exists vs kvs',
+      map_result (fun kv : str * json => bind (S (snd kv) X) (fun v => Ok (fst kv, v))) kvs = Ok vs /\
+      map_result (fun kv : str * value => bind (U (snd kv) X) (fun j => Ok (fst kv, j))) vs = Ok kvs' /\
+      Forall2 (fun a b => fst a = fst b /\ REL X (snd a) (snd b)) kvs kvs'.
+  Proof.
+    intros X kvs H. induction H as [|[k x] l [v [j' [Hs [Hu [Hr _]]]]] _ [vs [l' [E1 [E2 F]]]]].
+    - exists [], []. repeat split; constructor.
+    - exists ((k, v) :: vs), ((k, j') :: l'). cbn [fst snd] in *.
+      rewrite !map_result_cons. cbn [fst snd]. rewrite Hs. cbn [bind]. rewrite E1.
+      cbn [fst snd]. rewrite Hu. cbn [bind]. rewrite E2.
+      repeat split. constructor; [split; [reflexivity | exact Hr] | exact F].
+  Qed.
+
+  Lemma default_unstructure : forall T d, default_shape T d -> exists jd, U d T = Ok jd /\ empty_json jd.
+  Proof.
+    intros T d [[-> [X ->]] | [[-> [X [-> | ->]]] | [-> [X [-> | ->]]]]].
+    - exists JNull. split; [reflexivity | left; reflexivity].
+    - exists (JArr []). split; [reflexivity | right; left; reflexivity].
+    - exists (JArr []). split; [reflexivity | right; left; reflexivity].
+    - exists (JObj []). split; [reflexivity | right; right; reflexivity].
+    - exists (JObj []). split; [reflexivity | right; right; reflexivity].
+  Qed.
+
+  Lemma NoDup_map_inj_in : forall {A B} (f : A -> B) (l : list A) x y,
+    NoDup (map f l) -> In x l -> In y l -> f x = f y -> x = y.
+  Proof.
+    intros A B f. induction l as [|a l IH]; intros x y Hnd Hx Hy E; [destruct Hx|].
+    cbn [map] in Hnd. inversion Hnd as [|? ? Hni Hnd']; subst.
+    destruct Hx as [-> | Hx], Hy as [-> | Hy]; auto.
+    - exfalso. apply Hni. rewrite E. apply in_map. exact Hy.
+    - exfalso. apply Hni. rewrite <- E. apply in_map. exact Hx.
+  Qed.
+
+  Lemma alookup_Some_In : forall {V} (l : list (str * V)) k v, alookup k l = Some v -> In (k, v) l.
+  Proof.
+    induction l as [|[k' v'] l IH]; intros k v H; [discriminate|]. cbn [alookup] in H.
+    destruct (str_eqb k k') eqn:E.
+    - apply str_eqb_eq in E. inversion H; subst. left. reflexivity.
+    - right. apply IH. exact H.
+  Qed.
+
+  Lemma alookup_None_notin : forall {V} (l : list (str * V)) k, alookup k l = None -> ~ In k (map fst l).
+  Proof.
+    induction l as [|[k' v'] l IH]; intros k H Hin; [destruct Hin|]. cbn [alookup] in H.
+    destruct (str_eqb k k') eqn:E; [discriminate|].
+    destruct Hin as [Hk | Hin]; [cbn [fst] in Hk; subst; rewrite str_eqb_refl in E; discriminate|].
+    exact (IH k H Hin).
+  Qed.
+
+  Lemma in_combine_map : forall {A B C} (f : A -> B) (g : A -> C) l x,
+    In x l -> In (f x, g x) (combine (map f l) (map g l)).
+  Proof.
+    intros A B C f g. induction l as [|a l IH]; intros x Hx; [destruct Hx|].
+    cbn [map combine]. destruct Hx as [-> | Hx]; [left; reflexivity | right; apply IH; exact Hx].
+  Qed.
+
+  Lemma map_fst_combine_map : forall {A B C} (f : A -> B) (g : A -> C) l,
+    map fst (combine (map f l) (map g l)) = map f l.
+  Proof. intros A B C f g. induction l as [|a l IH]; [reflexivity|]. cbn [map combine fst]. rewrite IH. reflexivity. Qed.
+
+  Lemma data_de : forall c k kvs, R c ->
+    lookup_cls ct c = Some k -> NoDup (map fst kvs) ->
+    (forall key v, In (key, v) kvs -> exists f, In f (c_fields k) /\ wire k f = key /\ D v (f_ty f)) ->
+    (forall f, In f (c_fields k) -> f_default f = None -> In (wire k f) (map fst kvs)) ->
+    D (JObj kvs) (TData c).
+  Proof.
+    intros c k kvs HRc Hk Hnd Hkeys Hreq.
+    destruct (H_ct c k Hk) as [_ [[Hnd_n [Hnd_w Hdump]] [Htyok _]]].
+    pose (vf := fun f : field =>
+            match alookup (wire k f) kvs with
+            | Some jv => match S jv (f_ty f) with Ok v => v | Err => VNone end
+            | None => match f_default f with Some d => d | None => VNone end
+            end).
+    pose (jf := fun f : field => match U (vf f) (f_ty f) with Ok j => j | Err => JNull end).
+    (* per field: what is structured, what is written back, how they relate *)
+    assert (Hpt : forall f, In f (c_fields k) ->
+              (match alookup (wire k f) kvs with
+               | Some jv => S jv (f_ty f) = Ok (vf f)
+               | None => default_or_err f = Ok (vf f)
+               end) /\
+              U (vf f) (f_ty f) = Ok (jf f) /\
+              ((exists jv, alookup (wire k f) kvs = Some jv /\ REL (f_ty f) jv (jf f)) \/
+               (alookup (wire k f) kvs = None /\ empty_json (jf f)))).
+    { intros f Hf. unfold jf, vf.
+      destruct (alookup (wire k f) kvs) as [jv|] eqn:El.
+      - apply alookup_Some_In in El as Hin.
+        destruct (Hkeys _ _ Hin) as [f' [Hf' [Hw Dv]]].
+        assert (f' = f) by (apply (NoDup_map_inj_in (wire k) (c_fields k)); assumption). subst f'.
+        destruct Dv as [v [j' [Hs [Hu [Hr _]]]]]. rewrite Hs, Hu.
+        split; [reflexivity|]. split; [reflexivity|]. left. exists jv. split; [reflexivity | exact Hr].
+      - destruct (f_default f) as [d|] eqn:Ed.
+        + destruct (default_unstructure (f_ty f) d (H_def c k f d Hk Hf Ed)) as [jd [Hu He]].
+          rewrite Hu. unfold default_or_err. rewrite Ed.
+          split; [reflexivity|]. split; [reflexivity|]. right. split; [reflexivity | exact He].
+        + exfalso. apply (alookup_None_notin kvs _ El). apply Hreq; assumption. }
+    pose (names := map f_name (c_fields k)).
+    pose (fs := combine names (map vf (c_fields k))).
+    pose (kvs' := map (fun f => (wire k f, jf f)) (c_fields k)).
+    assert (Hnd' : NoDup (map fst kvs')) by (unfold kvs'; rewrite map_map; cbn [fst]; exact Hnd_w).
+    assert (Hfs_names : map fst fs = names) by (unfold fs, names; apply map_fst_combine_map).
+    exists (VData c fs), (JObj kvs'). split; [|split; [|split]].
+    - rewrite S_unfold. cbn [skl skd structure_node structure_nonopt]. unfold structure_data.
+      rewrite Hk, (H_sreg c k HRc Hk).
+      assert (Heb : existsb (fun f => eager_bad (f_ty f)) (c_fields k) = false).
+      { apply not_true_is_false. intro He. apply existsb_exists in He as [f [Hf He]].
+        rewrite (ty_ok_not_eager _ (Htyok f Hf)) in He. discriminate. }
+      rewrite Heb. unfold pack_fields.
+      rewrite (map_result_pointwise _ vf); [reflexivity|].
+      intros f Hf. rewrite alookup_map_snd. destruct (Hpt f Hf) as [H1 _]. unfold wire in H1.
+      destruct (alookup (load_key k true (f_name f)) kvs); cbn [option_map]; exact H1.
+    - rewrite U_unfold. cbn [ukl ukd unstructure_node unstructure_nonopt]. rewrite N.eqb_refl.
+      unfold unstructure_data. rewrite Hk, (H_ureg c k HRc Hk).
+      rewrite (map_result_pointwise _ (fun f => (wire k f, jf f))).
+      + cbn [bind]. fold kvs'. rewrite dict_of_NoDup by exact Hnd'. reflexivity.
+      + intros f Hf. rewrite alookup_map_snd.
+        rewrite (alookup_In_NoDup fs (f_name f) (vf f)).
+        * cbn [option_map]. destruct (Hpt f Hf) as [_ [Hu _]]. rewrite Hu. cbn [bind].
+          rewrite (Hdump f Hf). reflexivity.
+        * rewrite Hfs_names. exact Hnd_n.
+        * unfold fs, names. apply in_combine_map. exact Hf.
+    - apply (R_data ct c k kvs kvs' Hk).
+      + unfold kvs'. rewrite map_map. reflexivity.
+      + intros f j' Hf Hl.
+        assert (Hj : alookup (wire k f) kvs' = Some (jf f)).
+        { apply alookup_In_NoDup; [exact Hnd'|]. unfold kvs'. apply in_map_iff. exists f. auto. }
+        rewrite Hj in Hl. inversion Hl; subst j'. apply (Hpt f Hf).
+    - intros _ Hv. discriminate.
+  Qed.
+
+  (* decode then encode: every conforming document is decoded, and encoding the instance gives the
+     document back (keys in class order, absent optional keys as null / empty container) *)
+  Theorem decode_encode_core : forall j T, ty_ok T = true -> inR T -> CONF T j -> D j T.
+  Proof.
+    induction j using json_ind'; apply D_lift; intros T Hno Hok HR Hc;
+      inversion Hc; subst; try discriminate Hno; try apply D_any.
+    all: try (eexists _, _; split; [reflexivity|]; split; [reflexivity|];
+              split; [apply R_leaf; reflexivity | intros _ ?; discriminate]).
+    - (* bytes *) exists (VBytes b), (JStr (b64enc b)). split.
+      { cbn [structure structure_str]. rewrite H_b64. reflexivity. }
+      split; [reflexivity|]. split; [apply R_leaf; reflexivity | intros _ ?; discriminate].
+    - (* datetime *) exists (VDatetime s), (JStr s). split.
+      { cbn [structure structure_str]. unfold structure_datetime.
+        match goal with H : replace_Z s = s |- _ => rewrite H end.
+        match goal with H : dt_parse s = Some s |- _ => rewrite H end. reflexivity. }
+      split; [reflexivity|]. split; [apply R_leaf; reflexivity | intros _ ?; discriminate].
+    - (* date *) exists (VDate s), (JStr s). split.
+      { cbn [structure structure_str]. match goal with H : date_parse s = Some s |- _ => rewrite H end. reflexivity. }
+      split; [reflexivity|]. split; [apply R_leaf; reflexivity | intros _ ?; discriminate].
+    - (* uuid *) exists (VUuid s), (JStr s). split.
+      { cbn [structure structure_str]. match goal with H : uuid_parse s = Some s |- _ => rewrite H end. reflexivity. }
+      split; [reflexivity|]. split; [apply R_leaf; reflexivity | intros _ ?; discriminate].
+    - (* time *) exists (VTime s), (JStr s). split.
+      { cbn [structure structure_str]. match goal with H : time_parse s = Some s |- _ => rewrite H end. reflexivity. }
+      split; [reflexivity|]. split; [apply R_leaf; reflexivity | intros _ ?; discriminate].
+    - (* enum *) exists (VStr s), (JStr s). split.
+      { cbn [structure structure_str]. match goal with H : mem_str s _ = true |- _ => rewrite H end. reflexivity. }
+      split; [reflexivity|]. split; [apply R_leaf; reflexivity | intros _ ?; discriminate].
+    - (* list *)
+      cbn [ty_ok] in Hok.
+      assert (HD : Forall (fun x => D x X) l).
+      { rewrite Forall_forall in *. intros x Hx. apply H; [exact Hx | exact Hok | exact HR | auto]. }
+      destruct (list_de X l HD) as [vs [l' [E1 [E2 F]]]].
+      exists (VList vs), (JArr l'). split; [|split; [|split]].
+      + rewrite S_unfold. cbn [skl skd structure_node structure_nonopt].
+        rewrite (ty_ok_not_eager _ Hok), map_result_map, E1. reflexivity.
+      + rewrite U_unfold. cbn [ukl ukd unstructure_node unstructure_nonopt].
+        rewrite map_result_map, E2. reflexivity.
+      + apply R_list. exact F.
+      + intros _ ?. discriminate.
+    - (* dict *)
+      cbn [ty_ok] in Hok.
+      assert (HD : Forall (fun kv => D (snd kv) X) kvs).
+      { rewrite Forall_forall in *. intros x Hx. apply H; [exact Hx | exact Hok | exact HR | auto]. }
+      destruct (dict_de X kvs HD) as [vs [kvs' [E1 [E2 F]]]].
+      exists (VDict vs), (JObj kvs'). split; [|split; [|split]].
+      + rewrite S_unfold. cbn [skl skd structure_node structure_nonopt].
+        rewrite (ty_ok_not_eager _ Hok), map_result_map. cbn [fst snd]. rewrite E1. reflexivity.
+      + rewrite U_unfold. cbn [ukl ukd unstructure_node unstructure_nonopt].
+        rewrite map_result_map. cbn [fst snd]. rewrite E2. reflexivity.
+      + apply R_dict. exact F.
+      + intros _ ?. discriminate.
+    - (* dataclass *)
+      match goal with Hk : lookup_cls ct c = Some ?k |- _ =>
+        apply (data_de c k kvs (HR c (or_introl eq_refl)) Hk); try assumption;
+        destruct (H_ct c k Hk) as [_ [_ [Htyok _]]];
+        assert (HRf : forall g, In g (c_fields k) -> inR (f_ty g))
+          by (intros g Hg d Hd; exact (H_R c k g d (HR c (or_introl eq_refl)) Hk Hg Hd)) end.
+      intros key v Hin.
+      match goal with Hkeys : forall key v, In (key, v) kvs -> _ |- _ =>
+        destruct (Hkeys key v Hin) as [f [Hf [Hw Hcv]]] end.
+      exists f. split; [exact Hf|]. split; [exact Hw|].
+      rewrite Forall_forall in H. apply (H (key, v) Hin); [apply Htyok; exact Hf | apply HRf; exact Hf | exact Hcv].
+  Qed.
 End RoundTrip.
+
+(* the all-classes-hooked instances (R = every class) *)
+Lemma encode_decode_all :
+  forall b64dec b64enc dt_parse date_parse uuid_parse time_parse int_of_str float_of_str str_of_json ct sreg ureg,
+    (forall b, b64dec (b64enc b) = Some b) -> ct_ok ct -> all_hooked ct sreg -> all_hooked ct ureg ->
+    forall v T, ty_ok T = true -> inst_ok dt_parse date_parse uuid_parse time_parse ct T v ->
+    Q b64dec b64enc dt_parse date_parse uuid_parse time_parse int_of_str float_of_str str_of_json ct sreg ureg v T.
+Proof.
+  intros until ureg. intros Hb Hct Hs Hu v T Hok Hi.
+  apply (encode_decode_core b64dec b64enc dt_parse date_parse uuid_parse time_parse int_of_str float_of_str
+           str_of_json ct sreg ureg Hb Hct (fun _ => True)); auto.
+  - intros c k _ Hk. exact (Hs c k Hk).
+  - intros c k _ Hk. exact (Hu c k Hk).
+  - intros d _. exact I.
+Qed.
+
+Lemma decode_encode_all :
+  forall b64dec b64enc dt_parse date_parse uuid_parse time_parse int_of_str float_of_str str_of_json ct sreg ureg,
+    (forall b, b64dec (b64enc b) = Some b) -> ct_ok ct -> all_hooked ct sreg -> all_hooked ct ureg -> defaults_ok ct ->
+    forall j T, ty_ok T = true -> conforms b64enc dt_parse date_parse uuid_parse time_parse ct T j ->
+    D b64dec b64enc dt_parse date_parse uuid_parse time_parse int_of_str float_of_str str_of_json ct sreg ureg j T.
+Proof.
+  intros until ureg. intros Hb Hct Hs Hu Hd j T Hok Hc.
+  apply (decode_encode_core b64dec b64enc dt_parse date_parse uuid_parse time_parse int_of_str float_of_str
+           str_of_json ct sreg ureg Hb Hct (fun _ => True)); auto.
+  - intros c k _ Hk. exact (Hs c k Hk).
+  - intros c k _ Hk. exact (Hu c k Hk).
+  - intros d _. exact I.
+Qed.
 
 (* ---------- only ValueError leaves structure_from_dict (the shape of its try/except) ---------- *)
 Lemma errors_only_ValueError :
@@ -458,6 +761,28 @@ Proof.
   cbn [snd f_ty]. apply I_some; [discriminate|]. apply I_list. constructor; [apply I_str | constructor].
 Qed.
 
+Lemma ct_demo_defaults : defaults_ok ct_demo.
+Proof.
+  intros c k f d Hk Hf Hd. unfold lookup_cls, ct_demo in Hk. cbn [find] in Hk.
+  destruct (c_id k_demo =? c); [|discriminate]. inversion Hk; subst k. clear Hk.
+  cbn in Hf. destruct Hf as [<-|[<-|[<-|[]]]]; cbn in Hd; try discriminate.
+  inversion Hd; subst d. left. split; [reflexivity | eexists; reflexivity].
+Qed.
+
+(* {"raw": <base64 of 01 02>, "id": 7} : the optional "Tags" key is absent *)
+Definition j_demo (b64enc : list N -> str) : json :=
+  JObj [([114;97;119], JStr (b64enc [1;2])); ([105;100], JInt 7)].
+Lemma j_demo_conforms : forall b64enc dt_parse date_parse uuid_parse time_parse,
+  conforms b64enc dt_parse date_parse uuid_parse time_parse ct_demo (TData 0) (j_demo b64enc).
+Proof.
+  intros. apply (C_data _ _ _ _ _ _ 0 k_demo); [reflexivity | | |].
+  - cbn. repeat constructor; cbn; intuition discriminate.
+  - intros key v [H | [H | []]]; inversion H; subst.
+    + eexists. split; [right; right; left; reflexivity|]. split; [reflexivity | apply C_bytes].
+    + eexists. split; [left; reflexivity|]. split; [reflexivity | apply C_int].
+  - intros f Hf Hd. cbn in Hf. destruct Hf as [<-|[<-|[<-|[]]]]; cbn in Hd; try discriminate; cbn; auto.
+Qed.
+
 Lemma demo_hooked : all_hooked ct_demo [0].
 Proof.
   intros c k H. unfold lookup_cls, ct_demo in H. cbn [find] in H.
@@ -466,8 +791,36 @@ Qed.
 
 (* ======================================================================================
    Independence from the prior history: the result depends on the registry only through the
-   classes of the table, and the entry points register those themselves
+   classes reachable from the annotation, and the entry points register exactly those themselves
    ====================================================================================== *)
+Lemma map_result_ext_in : forall {A B} (f g : A -> result B) l,
+  (forall x, In x l -> f x = g x) -> map_result f l = map_result g l.
+Proof.
+  intros A B f g. induction l as [|x l IH]; intro H; [reflexivity|].
+  rewrite !map_result_cons, (H x (or_introl eq_refl)), IH; [reflexivity|].
+  intros y Hy. apply H. right. exact Hy.
+Qed.
+
+Lemma map_result_Forall2_ext : forall {A A' B} (f : A -> result B) (g : A' -> result B) l1 l2,
+  Forall2 (fun a b => f a = g b) l1 l2 -> map_result f l1 = map_result g l2.
+Proof.
+  intros A A' B f g l1 l2 H. induction H as [|a b l1 l2 Hab _ IH]; [reflexivity|].
+  rewrite !map_result_cons, Hab, IH. reflexivity.
+Qed.
+
+Lemma Forall2_weaken : forall {A B} (P Q : A -> B -> Prop) l1 l2,
+  (forall a b, P a b -> Q a b) -> Forall2 P l1 l2 -> Forall2 Q l1 l2.
+Proof. intros A B P Q l1 l2 H F. induction F; constructor; auto. Qed.
+
+Lemma ty_classes_strip : forall T, ty_classes (strip_opt T) = ty_classes T.
+Proof. induction T; cbn [strip_opt ty_classes]; auto. Qed.
+
+Lemma mem_N_app : forall c a b, mem_N c (a ++ b) = mem_N c a || mem_N c b.
+Proof. intros. unfold mem_N. apply existsb_app. Qed.
+
+Lemma mem_N_In : forall c l, In c l -> mem_N c l = true.
+Proof. intros c l H. unfold mem_N. apply existsb_exists. exists c. split; [exact H | apply N.eqb_refl]. Qed.
+
 Section History.
   Variable b64dec : str -> option (list N).
   Variable b64enc : list N -> str.
@@ -476,32 +829,31 @@ Section History.
   Variable str_of_json : json -> str.
   Variable ct : list cls.
 
+  (* a set of classes closed under "a field of c mentions d" *)
+  Variable R : N -> Prop.
+  Hypothesis H_R : forall c k f d, R c -> lookup_cls ct c = Some k -> In f (c_fields k) ->
+                                   In d (ty_classes (f_ty f)) -> R d.
+  Definition inRh (T : ty) : Prop := forall d, In d (ty_classes T) -> R d.
+
+  (* two registries that agree on it *)
   Definition reg_equiv (r1 r2 : list N) : Prop :=
-    forall c k, lookup_cls ct c = Some k -> mem_N c r1 = mem_N c r2.
+    forall c k, R c -> lookup_cls ct c = Some k -> mem_N c r1 = mem_N c r2.
 
   Notation Sr r := (structure b64dec dt_parse date_parse uuid_parse time_parse int_of_str float_of_str str_of_json ct r).
   Notation Sstr r := (structure_str b64dec dt_parse date_parse uuid_parse time_parse int_of_str float_of_str ct r).
   Notation Ur r := (unstructure b64enc ct r).
 
-  Lemma map_result_ext_in : forall {A B} (f g : A -> result B) l,
-    (forall x, In x l -> f x = g x) -> map_result f l = map_result g l.
+  Lemma structure_str_equiv : forall r1 r2, reg_equiv r1 r2 -> forall T s, inRh T -> Sstr r1 T s = Sstr r2 T s.
   Proof.
-    intros A B f g. induction l as [|x l IH]; intro H; [reflexivity|].
-    rewrite !map_result_cons, (H x (or_introl eq_refl)), IH; [reflexivity|].
-    intros y Hy. apply H. right. exact Hy.
+    intros r1 r2 He. induction T; intros s HT; cbn [structure_str]; try reflexivity.
+    - destruct (eager_bad T); [reflexivity|].
+      f_equal. apply map_result_ext_in. intros c _. apply IHT. exact HT.
+    - destruct T; try reflexivity; try (apply IHT; exact HT).
+    - destruct (lookup_cls ct c) as [k|] eqn:Ek; [|reflexivity].
+      rewrite (He c k (HT c (or_introl eq_refl)) Ek). reflexivity.
   Qed.
 
-  Lemma structure_str_equiv : forall r1 r2, reg_equiv r1 r2 -> forall T s, Sstr r1 T s = Sstr r2 T s.
-  Proof.
-    intros r1 r2 He. induction T; intro s; cbn [structure_str]; try reflexivity.
-    - (* list *) destruct (eager_bad T); [reflexivity|].
-      f_equal. apply map_result_ext_in. intros c _. apply IHT.
-    - (* opt *) destruct T; try reflexivity; try (apply IHT).
-    - (* data *) destruct (lookup_cls ct c) as [k|] eqn:Ek; [|reflexivity].
-      rewrite (He c k Ek). reflexivity.
-  Qed.
-
-  Definition kid_equiv {A} (f g : ty -> result A) : Prop := forall T, f T = g T.
+  Definition kid_equiv {A} (f g : ty -> result A) : Prop := forall T, inRh T -> f T = g T.
   Definition kd_equiv {A} (kd1 kd2 : list (str * (ty -> result A))) : Prop :=
     Forall2 (fun a b => fst a = fst b /\ kid_equiv (snd a) (snd b)) kd1 kd2.
 
@@ -517,17 +869,6 @@ Section History.
     cbn [fst snd] in *. subst k2. cbn [alookup]. destruct (str_eqb key k1); [exact Hf | exact IH].
   Qed.
 
-  Lemma map_result_Forall2_ext : forall {A A' B} (f : A -> result B) (g : A' -> result B) l1 l2,
-    Forall2 (fun a b => f a = g b) l1 l2 -> map_result f l1 = map_result g l2.
-  Proof.
-    intros A A' B f g l1 l2 H. induction H as [|a b l1 l2 Hab _ IH]; [reflexivity|].
-    rewrite !map_result_cons, Hab, IH. reflexivity.
-  Qed.
-
-  Lemma Forall2_weaken : forall {A B} (P Q : A -> B -> Prop) l1 l2,
-    (forall a b, P a b -> Q a b) -> Forall2 P l1 l2 -> Forall2 Q l1 l2.
-  Proof. intros A B P Q l1 l2 H F. induction F; constructor; auto. Qed.
-
   Section Node.
     Variables r1 r2 : list N.
     Hypothesis He : reg_equiv r1 r2.
@@ -537,105 +878,186 @@ Section History.
     Hypothesis Hkl : Forall2 kid_equiv kl1 kl2.
     Hypothesis Hkd : kd_equiv kd1 kd2.
 
-    Lemma data_equiv : forall c, structure_data ct r1 j kd1 c = structure_data ct r2 j kd2 c.
+    Lemma data_equiv : forall c, R c -> structure_data ct r1 j kd1 c = structure_data ct r2 j kd2 c.
     Proof.
-      intro c. unfold structure_data.
-      destruct (lookup_cls ct c) as [k|] eqn:Ek; [|reflexivity]. rewrite (He c k Ek).
+      intros c Hc. unfold structure_data.
+      destruct (lookup_cls ct c) as [k|] eqn:Ek; [|reflexivity]. rewrite (He c k Hc Ek).
       destruct (existsb _ _); [reflexivity|].
       destruct j; try reflexivity.
-      f_equal. apply map_result_ext_in. intros f _.
+      f_equal. apply map_result_ext_in. intros f Hf.
       pose proof (alookup_equiv kd1 kd2 (load_key k (mem_N c r2) (f_name f)) Hkd) as Ha.
-      destruct (alookup _ kd1), (alookup _ kd2); try contradiction; [apply Ha | reflexivity].
+      destruct (alookup _ kd1), (alookup _ kd2); try contradiction; [|reflexivity].
+      apply Ha. intros d Hd. exact (H_R c k f d Hc Ek Hf Hd).
     Qed.
 
-    Lemma nonopt_equiv : forall T,
+    Lemma nonopt_equiv : forall T, inRh T ->
       structure_nonopt b64dec dt_parse date_parse uuid_parse time_parse int_of_str float_of_str str_of_json ct r1 j kl1 kd1 T =
       structure_nonopt b64dec dt_parse date_parse uuid_parse time_parse int_of_str float_of_str str_of_json ct r2 j kl2 kd2 T.
     Proof.
-      intro T. destruct T; cbn [structure_nonopt]; try reflexivity.
+      intros T HT. destruct T; cbn [structure_nonopt]; try reflexivity.
       - destruct (eager_bad T); [reflexivity|]. destruct j; try reflexivity.
-        + f_equal. apply map_result_Forall2_ext. eapply Forall2_weaken; [|exact Hkl]. intros a b Hab. apply Hab.
+        + f_equal. apply map_result_Forall2_ext. eapply Forall2_weaken; [|exact Hkl]. intros a b Hab. apply Hab. exact HT.
         + f_equal. apply map_result_Forall2_ext. eapply Forall2_weaken; [|exact Hkd].
-          intros a b [Hk _]. rewrite Hk. apply structure_str_equiv. exact He.
+          intros a b [Hk _]. rewrite Hk. apply structure_str_equiv; [exact He | exact HT].
       - destruct (eager_bad T); [reflexivity|]. destruct j; try reflexivity.
         f_equal. apply map_result_Forall2_ext. eapply Forall2_weaken; [|exact Hkd].
-        intros a b [Hk Hf]. rewrite Hk, (Hf T). reflexivity.
-      - apply data_equiv.
+        intros a b [Hk Hf]. rewrite Hk, (Hf T HT). reflexivity.
+      - apply data_equiv. apply HT. left. reflexivity.
       - destruct j; try reflexivity.
         f_equal. apply map_result_Forall2_ext. eapply Forall2_weaken; [|exact Hkd].
-        intros a b [Hk Hf]. rewrite Hk, (Hf T). reflexivity.
+        intros a b [Hk Hf]. rewrite Hk, (Hf T HT). reflexivity.
     Qed.
 
-    Lemma node_equiv : forall T,
+    Lemma node_equiv : forall T, inRh T ->
       structure_node b64dec dt_parse date_parse uuid_parse time_parse int_of_str float_of_str str_of_json ct r1 j kl1 kd1 T =
       structure_node b64dec dt_parse date_parse uuid_parse time_parse int_of_str float_of_str str_of_json ct r2 j kl2 kd2 T.
     Proof.
-      intro T. destruct T; cbn [structure_node]; try apply nonopt_equiv.
+      intros T HT. destruct T; cbn [structure_node]; try (apply nonopt_equiv; exact HT).
+      assert (HS : inRh (strip_opt T)) by (unfold inRh; rewrite ty_classes_strip; exact HT).
       destruct j eqn:Ej; try reflexivity;
         destruct (strip_opt T) as [| | | | | | | | | |X|X|X|c|vals|c|X] eqn:Es; try reflexivity;
-        try (rewrite <- Ej; apply nonopt_equiv); try (rewrite <- Ej; apply data_equiv);
-        try (destruct X; try reflexivity; rewrite <- Ej; apply nonopt_equiv).
+        try (rewrite <- Ej; apply nonopt_equiv; exact HS);
+        try (rewrite <- Ej; apply data_equiv; apply HS; left; reflexivity);
+        try (destruct X; try reflexivity; rewrite <- Ej; apply nonopt_equiv; exact HS).
     Qed.
   End Node.
 
-  Lemma structure_equiv : forall r1 r2, reg_equiv r1 r2 -> forall j T, Sr r1 j T = Sr r2 j T.
+  Lemma structure_equiv : forall r1 r2, reg_equiv r1 r2 -> forall j T, inRh T -> Sr r1 j T = Sr r2 j T.
   Proof.
-    intros r1 r2 He. induction j using json_ind'; intro T; cbn [structure].
-    1-4: apply (node_equiv r1 r2 He); constructor.
-    - apply structure_str_equiv. exact He.
-    - apply (node_equiv r1 r2 He); [|constructor].
+    intros r1 r2 He. induction j using json_ind'; intros T HT; cbn [structure].
+    1-4: apply (node_equiv r1 r2 He); [constructor | constructor | exact HT].
+    - apply structure_str_equiv; assumption.
+    - apply (node_equiv r1 r2 He); [|constructor | exact HT].
       induction H as [|x l Hx _ IH]; cbn [map]; constructor; [exact Hx | exact IH].
-    - apply (node_equiv r1 r2 He); [constructor|].
+    - apply (node_equiv r1 r2 He); [constructor| | exact HT].
       induction H as [|[k v] l Hv _ IH]; cbn [map]; constructor; [|exact IH].
       cbn [fst snd]. split; [reflexivity | exact Hv].
   Qed.
 
-  (* what the registration walk must achieve for this table (executable; evaluated on the cases) *)
-  Definition reaches_all (T : ty) : bool := forallb (fun k => mem_N (c_id k) (reach ct T)) ct.
+  (* the encode side: the same for unstructure, on instances that conform to their annotation (no
+     instance of an unrelated class hidden under Any — that is finding F16b) *)
+  Hypothesis H_ct : ct_ok ct.
+  Notation IOK := (inst_ok dt_parse date_parse uuid_parse time_parse ct).
 
-  Lemma lookup_in : forall c k, lookup_cls ct c = Some k -> In k ct /\ c_id k = c.
+  Lemma U_opt_eq : forall r v X, v <> VNone -> is_opt X = false -> Ur r v (TOpt X) = Ur r v X.
   Proof.
-    intros c k H. unfold lookup_cls in H. apply find_some in H as [Hin He].
-    apply N.eqb_eq in He. split; assumption.
+    intros r v X Hv HX. rewrite !U_unfold.
+    destruct X; try discriminate HX; destruct v; try (exfalso; apply Hv; reflexivity); reflexivity.
   Qed.
 
-  Lemma mem_N_app : forall c a b, mem_N c (a ++ b) = mem_N c a || mem_N c b.
-  Proof. intros. unfold mem_N. apply existsb_app. Qed.
-
-  Lemma reaches_all_hooked : forall T extra, reaches_all T = true -> all_hooked ct (reach ct T ++ extra).
+  Lemma unstructure_equiv : forall r1 r2, reg_equiv r1 r2 -> forall v T, ty_ok T = true -> inRh T ->
+    IOK T v -> Ur r1 v T = Ur r2 v T.
   Proof.
-    intros T extra H c k Hk. destruct (lookup_in c k Hk) as [Hin Hid].
-    unfold reaches_all in H. rewrite forallb_forall in H. specialize (H k Hin).
-    rewrite Hid in H. rewrite mem_N_app, H. reflexivity.
+    intros r1 r2 He.
+    assert (Hany : forall j, Ur r1 (inject j) TAny = Ur r2 (inject j) TAny)
+      by (intro j; rewrite !U_inject; reflexivity).
+    assert (Hlift : forall v,
+              (forall T, is_opt T = false -> ty_ok T = true -> inRh T -> IOK T v -> Ur r1 v T = Ur r2 v T) ->
+              forall T, ty_ok T = true -> inRh T -> IOK T v -> Ur r1 v T = Ur r2 v T).
+    { intros v Hno T Hok HT Hi. destruct T; try (apply Hno; [reflexivity | exact Hok | exact HT | exact Hi]).
+      cbn [ty_ok] in Hok. apply andb_true_iff in Hok as [Hok1 Hok2].
+      assert (HX : is_opt T = false) by (destruct T; try reflexivity; discriminate Hok2).
+      inversion Hi; subst; [reflexivity|].
+      rewrite !U_opt_eq by assumption. apply Hno; assumption. }
+    induction v using value_ind'; apply Hlift; intros T Hno Hok HT Hi;
+      inversion Hi; subst; try discriminate Hno; try apply Hany; try reflexivity.
+    - (* list *)
+      cbn [ty_ok] in Hok. rewrite !U_unfold. cbn [ukl ukd unstructure_node unstructure_nonopt].
+      rewrite !map_result_map. f_equal. apply map_result_ext_in. intros x Hx.
+      rewrite Forall_forall in *. apply H; auto.
+    - (* dict *)
+      cbn [ty_ok] in Hok. rewrite !U_unfold. cbn [ukl ukd unstructure_node unstructure_nonopt].
+      rewrite !map_result_map. cbn [fst snd]. f_equal. apply map_result_ext_in. intros x Hx.
+      rewrite Forall_forall in *. rewrite (H x Hx X); auto.
+    - (* dataclass *)
+      match goal with Hk : lookup_cls ct c = Some ?k |- _ =>
+        destruct (H_ct c k Hk) as [_ [[Hnd_n _] [Htyok _]]];
+        assert (Hc : R c) by (apply HT; left; reflexivity);
+        rewrite !U_unfold; cbn [ukl ukd unstructure_node unstructure_nonopt]; rewrite N.eqb_refl;
+        unfold unstructure_data; rewrite Hk, (He c k Hc Hk) end.
+      f_equal. apply map_result_ext_in. intros f Hf. rewrite !alookup_map_snd.
+      match goal with HF : Forall2 _ (c_fields ?k) fs, Hm : map fst fs = _ |- _ =>
+        destruct (Forall2_fields _ _ _ HF Hm f Hf) as [[n v] [Hin [Hn Hiv]]] end.
+      cbn [fst snd] in *. subst n.
+      rewrite (alookup_In_NoDup fs (f_name f) v);
+        [|match goal with Hm : map fst fs = _ |- _ => rewrite Hm; exact Hnd_n end | exact Hin].
+      cbn [option_map]. rewrite Forall_forall in H.
+      pose proof (H (f_name f, v) Hin (f_ty f)) as Hx. cbn [snd] in Hx.
+      rewrite Hx; [reflexivity | apply Htyok; exact Hf | | exact Hiv].
+      intros d Hd. match goal with Hk : lookup_cls ct c = Some _ |- _ => exact (H_R c _ f d Hc Hk Hf Hd) end.
+  Qed.
+End History.
+
+(* ---------- the two entry points, any prior state ---------- *)
+Section Api.
+  Variable b64dec : str -> option (list N).
+  Variable b64enc : list N -> str.
+  Variable dt_parse date_parse uuid_parse time_parse : str -> option str.
+  Variable int_of_str float_of_str : str -> option Z.
+  Variable str_of_json : json -> str.
+  Variable ct : list cls.
+
+  Definition Rof (T : ty) : N -> Prop := fun d => In d (reach ct T).
+
+  Lemma Rof_closed : forall T c k f d, Rof T c -> lookup_cls ct c = Some k -> In f (c_fields k) ->
+    In d (ty_classes (f_ty f)) -> Rof T d.
+  Proof.
+    intros T c k f d Hc Hk Hf Hd. unfold Rof in *.
+    exact (stable_fields ct (reach ct T) c k f (proj2 (reach_closed ct T)) Hc Hk Hf d Hd).
   Qed.
 
-  (* structure_from_dict: whatever was registered or structured before, the outcome is the same *)
-  Theorem history_free_partial : forall T, reaches_all T = true -> forall st1 st2 j,
+  Lemma Rof_in : forall T d, In d (ty_classes T) -> Rof T d.
+  Proof. intros T d Hd. exact (proj1 (reach_closed ct T) d Hd). Qed.
+
+  Lemma Rof_hooked : forall T extra c, Rof T c -> mem_N c (reach ct T ++ extra) = true.
+  Proof. intros T extra c Hc. rewrite mem_N_app, (mem_N_In c _ Hc). reflexivity. Qed.
+
+  (* structure_from_dict: whatever was registered or structured before, the outcome is the same — for
+     every annotation, every document (conforming or not), every pair of prior states *)
+  Theorem history_free_full : forall T st1 st2 j,
     snd (structure_from_dict b64dec dt_parse date_parse uuid_parse time_parse int_of_str float_of_str str_of_json ct st1 T j) =
     snd (structure_from_dict b64dec dt_parse date_parse uuid_parse time_parse int_of_str float_of_str str_of_json ct st2 T j).
   Proof.
-    intros T Hr st1 st2 j. unfold structure_from_dict. cbn [snd sreg_of].
-    rewrite (structure_equiv (reach ct T ++ sreg_of st1) (reach ct T ++ sreg_of st2)); [reflexivity|].
-    intros c k Hk. rewrite (reaches_all_hooked T (sreg_of st1) Hr c k Hk),
-                           (reaches_all_hooked T (sreg_of st2) Hr c k Hk). reflexivity.
+    intros T st1 st2 j. unfold structure_from_dict. cbn [snd sreg_of].
+    rewrite (structure_equiv b64dec dt_parse date_parse uuid_parse time_parse int_of_str float_of_str str_of_json ct
+               (Rof T) (Rof_closed T) (reach ct T ++ sreg_of st1) (reach ct T ++ sreg_of st2)); [reflexivity| |].
+    - intros c k Hc _. rewrite !Rof_hooked by exact Hc. reflexivity.
+    - intros d Hd. apply Rof_in. exact Hd.
   Qed.
 
-  (* the two entry points, any prior state: encode, then decode, gives the instance back *)
-  Theorem api_encode_decode_partial :
+  (* unstructure_to_dict on an instance that conforms to its class: independent of the prior state too *)
+  Theorem history_free_encode : ct_ok ct -> forall c v st1 st2,
+    inst_ok dt_parse date_parse uuid_parse time_parse ct (TData c) v ->
+    snd (unstructure_to_dict b64enc ct st1 v) = snd (unstructure_to_dict b64enc ct st2 v).
+  Proof.
+    intros Hct c v st1 st2 Hi.
+    assert (Hv : exists fs, v = VData c fs) by (inversion Hi; eexists; reflexivity).
+    destruct Hv as [fs ->]. unfold unstructure_to_dict. cbn [snd ureg_of].
+    assert (Hdyn : forall r, unstructure b64enc ct r (VData c fs) TAny = unstructure b64enc ct r (VData c fs) (TData c)).
+    { intro r. cbn [unstructure unstructure_node unstructure_nonopt]. rewrite N.eqb_refl. reflexivity. }
+    rewrite !Hdyn.
+    rewrite (unstructure_equiv b64enc dt_parse date_parse uuid_parse time_parse ct (Rof (TData c)) (Rof_closed (TData c)) Hct
+               (reach ct (TData c) ++ ureg_of st1) (reach ct (TData c) ++ ureg_of st2)); [reflexivity | | reflexivity | | exact Hi].
+    - intros c' k Hc _. rewrite !Rof_hooked by exact Hc. reflexivity.
+    - intros d Hd. apply Rof_in. exact Hd.
+  Qed.
+
+  (* encode, then decode, through the entry points, from ANY prior state *)
+  Theorem api_encode_decode_full :
     (forall b, b64dec (b64enc b) = Some b) -> ct_ok ct ->
-    forall c v st, reaches_all (TData c) = true ->
-      inst_ok dt_parse date_parse uuid_parse time_parse ct (TData c) v ->
+    forall c v st, inst_ok dt_parse date_parse uuid_parse time_parse ct (TData c) v ->
       exists j st', unstructure_to_dict b64enc ct st v = (st', Returned j) /\
         snd (structure_from_dict b64dec dt_parse date_parse uuid_parse time_parse int_of_str float_of_str str_of_json ct st' (TData c) j)
         = Returned v.
   Proof.
-    intros Hb Hct c v st Hr Hi.
+    intros Hb Hct c v st Hi.
     assert (Hv : exists fs, v = VData c fs) by (inversion Hi; eexists; reflexivity).
     destruct Hv as [fs ->].
     pose (st' := {| sreg_of := sreg_of st; ureg_of := reach ct (TData c) ++ ureg_of st |}).
     destruct (encode_decode_core b64dec b64enc dt_parse date_parse uuid_parse time_parse int_of_str float_of_str str_of_json ct
-                (reach ct (TData c) ++ sreg_of st') (ureg_of st') Hb Hct
-                (reaches_all_hooked _ _ Hr) (reaches_all_hooked _ _ Hr) (VData c fs) (TData c) eq_refl Hi)
+                (reach ct (TData c) ++ sreg_of st') (ureg_of st') Hb Hct (Rof (TData c)) (Rof_closed (TData c))
+                (fun c' k Hc _ => Rof_hooked (TData c) _ c' Hc) (fun c' k Hc _ => Rof_hooked (TData c) _ c' Hc)
+                (VData c fs) (TData c) eq_refl (Rof_in (TData c)) Hi)
       as [j [Hu [Hs _]]].
     exists j, st'. split.
     - unfold unstructure_to_dict. fold st'.
@@ -645,4 +1067,19 @@ Section History.
       rewrite Hdyn, Hu. reflexivity.
     - unfold structure_from_dict. cbn [snd sreg_of]. rewrite Hs. reflexivity.
   Qed.
-End History.
+End Api.
+
+(* ---------- F16b: unstructure_to_dict on a container root is history-dependent ---------- *)
+Definition k_F16b : cls :=
+  {| c_id := 0; c_fields := [ {| f_name := [120;95;121]; f_ty := TInt; f_default := None |} ];     (* x_y *)
+     c_load := Some [([120;89], [120;95;121])]; c_dump := Some [([120;95;121], [120;89])] |}.   (* xY <-> x_y *)
+Definition inst_F16b : value := VData 0 [([120;95;121], VInt 5)].
+Definition root_F16b : value := VDict [([107], inst_F16b)].                                      (* {"k": inst} *)
+
+Lemma refuted_F16b : forall b64enc,
+  let st2 := fst (unstructure_to_dict b64enc [k_F16b] st0 inst_F16b) in
+  snd (unstructure_to_dict b64enc [k_F16b] st0 root_F16b)
+    = Returned (JObj [([107], JObj [([120;95;121], JInt 5)])]) /\
+  snd (unstructure_to_dict b64enc [k_F16b] st2 root_F16b)
+    = Returned (JObj [([107], JObj [([120;89], JInt 5)])]).
+Proof. intro b64enc. split; vm_compute; reflexivity. Qed.
